@@ -77,7 +77,9 @@ def check_C12(run):
                "f:<2e-9", "f:>=6e21", "f:0.5 AND g:1.5e-7", "f:12345678901234567890", "f:[1 TO 123456789012]", "f:1.0", "f:-1.0", "f:[1.0 TO 2.0]",
                "f:(1.0 OR 2)", "f:-0.0", "f:[-0.0 TO 1]", "f:[9007199254740993 TO *]", "f:[1 TO 12345678901234567890123]",
                "f:9007199254740993", "f:(9007199254740993 OR 2)", "f:x~0", "f:x~1", "f:x~5", "f:x^1", "f:x^0.5", "f:x^3", "\"\"", "f:\"\"", "f:\" \"", "f:a\\*b", "f:\"/x/\"", "f:\"/\"",
-               "f:/a b/", "f:[\"a b\" TO \"c*\"]", "f:(\"a*\" OR b)", "f:\u00e9t\u00e9", "\u5b57:\u5b57*"]
+               "f:/a b/", "f:[\"a b\" TO \"c*\"]", "f:(\"a*\" OR b)", "f:\u00e9t\u00e9", "\u5b57:\u5b57*",
+               # regexps whose body ends in escaped characters (the closing slash is or is not escaped)
+               "f:/ab\\\\/", "f:/a\\/b/", "f:/\\\\/", "/ab\\\\/ AND x", "f:/a*\\\\/", "f:/a\\\\\\/b/", "f:/a\\/", "NOT f:/x\\\\/"]
     res, _, _ = stage_texts(run, special, name="special_texts", with_json=True)
     stage_judge_enum(run, res, "C12", name="judge_special")
     run.exhaustive = True
